@@ -178,7 +178,17 @@ def run(ctx: Ctx) -> None:
             muts = []
             for f, n, how, full in sites.get(short, []):
                 # the object itself (bare module-level name / Class.attr / cls.attr), not an instance attribute or a local
-                if how == "next()" or full in (short, name, f"cls.{short}"):
+                via_self = False
+                if full == f"self.{short}" and "." in name and f.cls is not None:
+                    # `self.X[...] = v` / `self.X.append(v)` inside a method: X is the CLASS-level object unless some method gives
+                    # instances their own `self.X = ...`
+                    owner = next((c_ for c_ in f.cls.mro() if c_.name == name.split(".")[0] and c_.module is m), None)
+                    if owner is not None:
+                        rebinds = any(isinstance(a_, ast.Assign) and any(isinstance(t_, ast.Attribute) and dotted(t_) == f"self.{short}" for t_ in a_.targets)
+                                      or isinstance(a_, ast.AnnAssign) and isinstance(a_.target, ast.Attribute) and dotted(a_.target) == f"self.{short}"
+                                      for k_ in f.cls.mro() for mth in k_.methods.values() for a_ in ast.walk(mth.node))
+                        via_self = not rebinds
+                if how == "next()" or full in (short, name, f"cls.{short}") or via_self:
                     if full == short and "." in name:
                         continue  # bare name cannot refer to a class attribute
                     if full == short and f.module is not m and m.name + "." + short != idx.resolve_name(f.module, short):
